@@ -198,7 +198,7 @@ def b_lookups(ctx):
     warnings.simplefilter('ignore')
     laws = [('neuber', ExtendedNeuber(206e3, 1184.0, 0.187, 3.5)), ('seegerbeste', SeegerBeste(206e3, 1184.0, 0.187, 3.5))]
     bins = [2, 3, 10, 100] if ctx.tier == 'quick' else [2, 3, 5, 10, 37, 100]
-    maxima = [800.0, 1234.5]
+    maxima = [800.0, 1234.5, 4e-9]     # the unit of the load is the user's (4e-9: added after seed C07-g compared load ranges with np.isclose)
     ctx.bound = f"laws: extended Neuber, Seeger-Beste (E=206e3, K'=1184, n'=0.187, K_p=3.5); bin counts {bins} (and 1, see finding); maxima {maxima}; loads: every class edge, every mid-class, 0, +-max, max*(1+1e-9)"
     ctx.rule = "non-trivial: load strictly inside a class or exactly on an edge other than the last; distinct by (law, bins, max, load, function)"
     ctx.exhaustive = True
@@ -253,10 +253,35 @@ def b_lookups(ctx):
                 except ValueError:
                     pass
             ctx.case(True, key=(lname, nb, mx, 'guard', top))
+        # the same guard for loads given as a Series (added after seed C07-g snapped load ranges "close to" 2 max onto the last class in the Series branch only)
+        for fname, top, second in (('stress', mx, None), ('strain', mx, 'stress'), ('stress_secondary_branch', 2 * mx, None), ('strain_secondary_branch', 2 * mx, 'stress_secondary_branch')):
+            fn = getattr(b, fname)
+
+            def call_(ser_):
+                if second is None:
+                    return fn(ser_)
+                inner = pd.Series(np.zeros(len(ser_)), index=ser_.index)
+                return fn(inner, ser_)
+            for x in (top, -top):
+                try:
+                    call_(pd.Series([0.25 * top, x]))
+                except ValueError:
+                    ctx.fail(f'C07:guard-too-strict:series:{fname}:{lname}', f'{fname}(Series) with the load {x} == initialised maximum raises', {'law': lname, 'bins': nb, 'max': mx})
+            for x in (float(np.nextafter(top, np.inf)), top * (1 + 1e-9), -top * (1 + 1e-6), top * (1 + 5e-6), 3 * top):
+                for ser_ in (pd.Series([x]), pd.Series([0.25 * top, x, -0.5 * top])):
+                    try:
+                        v = call_(ser_)
+                        ctx.fail(f'C07:guard-missing:series:{fname}:{lname}', f'{fname}(Series {ser_.tolist()}) with a load above the initialised maximum {top} returns {np.asarray(v).tolist()} instead of raising',
+                                 {'law': lname, 'bins': nb, 'max': mx, 'load': x})
+                    except ValueError:
+                        pass
+            ctx.case(True, key=(lname, nb, mx, 'series-guard', fname))
         # monotone
         xs = np.linspace(-mx, mx, 41)
         ys = [float(b.stress(float(x))) for x in xs]
-        if any(ys[i] > ys[i + 1] for i in range(len(ys) - 1)):
+        # ("consequently ... is monotone": a consequence of the wrapped law's own monotonicity - at loads of 1e-9 the Seeger-Beste solver's absolute tolerance 1e-4
+        # makes the law's own edge values decrease, which is not Binned's doing; the premise is checked on the values the law returned for the class edges)
+        if bool(np.all(np.diff(s_edge) >= 0)) and any(ys[i] > ys[i + 1] for i in range(len(ys) - 1)):
             ctx.fail(f'C07:monotone:{lname}', 'binned stress not monotone', {'law': lname, 'bins': nb, 'max': mx})
         # Series load (single point table) incl. NaN
         ser = pd.Series([0.3 * mx, -0.77 * mx, np.nan, mx])
